@@ -3,6 +3,7 @@
 import Curtsies.Driver.FmtStr
 import Curtsies.Driver.FSArray
 import Curtsies.Driver.Sgr
+import Curtsies.Driver.Operand
 import Curtsies.Driver.Window
 import Curtsies.Driver.Width
 import Curtsies.Driver.Keys
@@ -13,7 +14,7 @@ import Curtsies.Driver.Heap
 import Curtsies.Driver.Contexts
 open Curtsies.Driver
 
-def handlers : List (List String → Option String) := [fmtOps, fsaOps, widthOps, sgrOps, keyOps, escOps, windowOps, inputOps, attsOps, ctxOps, heapOps]
+def handlers : List (List String → Option String) := [fmtOps, operandOps, fsaOps, widthOps, sgrOps, keyOps, escOps, windowOps, inputOps, attsOps, ctxOps, heapOps]
 
 def step (line : String) : String :=
   let args := (line.trimAscii.toString.splitOn " ")
